@@ -1,5 +1,6 @@
 import LoraVerif.Model.Aes
 import LoraVerif.Lemmas.C02Lemmas
+import LoraVerif.Props.C01
 /-!
 # C02 — received frames are authenticated and decoded exactly per spec, else untouched
 
@@ -17,17 +18,6 @@ open Lora Lora.Codec Lora.CodecLemmas Lora.C01Lemmas Lora.C02Lemmas
 set_option maxRecDepth 100000
 
 namespace C02
-
-theorem msgOf_pieces (mhdr a0 a1 a2 a3 fc c0 c1 : UInt8) (fo body mic : Bytes) (hmic : mic.length = 4) :
-    Spec.msgOf (frameOf mhdr a0 a1 a2 a3 fc c0 c1 fo body mic) = mhdr :: a0 :: a1 :: a2 :: a3 :: fc :: c0 :: c1 :: (fo ++ body) := by
-  unfold Spec.msgOf
-  have : (frameOf mhdr a0 a1 a2 a3 fc c0 c1 fo body mic).length - 4 = (mhdr :: a0 :: a1 :: a2 :: a3 :: fc :: c0 :: c1 :: (fo ++ body)).length := by
-    simp [frameOf, hmic]; omega
-  rw [this]
-  have : frameOf mhdr a0 a1 a2 a3 fc c0 c1 fo body mic = (mhdr :: a0 :: a1 :: a2 :: a3 :: fc :: c0 :: c1 :: (fo ++ body)) ++ mic := by
-    simp [frameOf]
-  rw [this, List.take_left']
-  rfl
 
 /-- **C02 (structure).** For every byte string: parsing and then running every accessor of the view
 (`frame_type`, `is_uplink`, `is_confirmed`, `fhdr().dev_addr()`, `fctrl()` and its five accessors,
@@ -75,46 +65,6 @@ theorem validate_mic_iff (c : Cipher) (k : Key) (N : UInt32) (b : Bytes) (p : Da
     rw [hs] at h
     refine ⟨v, rfl, ?_, ?_⟩ <;> rw [h] <;> simp [Except.map, Outcome.ofExcept, Spec.dataAuthentic]
 
-
-theorem withPayload_pieces (mhdr a0 a1 a2 a3 fc c0 c1 : UInt8) (fo : Bytes) (p : UInt8) (frm plain mic : Bytes) (ft : FType)
-    (hmic : mic.length = 4) :
-    Spec.withPayload (frameOf mhdr a0 a1 a2 a3 fc c0 c1 fo (p :: frm) mic)
-        (specViewOf ft a0 a1 a2 a3 fc c0 c1 fo (p :: frm) mic) plain
-      = frameOf mhdr a0 a1 a2 a3 fc c0 c1 fo (p :: plain) mic := by
-  unfold Spec.withPayload
-  have hv : (specViewOf ft a0 a1 a2 a3 fc c0 c1 fo (p :: frm) mic).frm = frm := rfl
-  have hm : (specViewOf ft a0 a1 a2 a3 fc c0 c1 fo (p :: frm) mic).mic = mic := rfl
-  rw [hv, hm]
-  have hl : (frameOf mhdr a0 a1 a2 a3 fc c0 c1 fo (p :: frm) mic).length - 4 - frm.length
-      = (mhdr :: a0 :: a1 :: a2 :: a3 :: fc :: c0 :: c1 :: (fo ++ [p])).length := by
-    simp [frameOf, hmic]; omega
-  have hsplit : frameOf mhdr a0 a1 a2 a3 fc c0 c1 fo (p :: frm) mic
-      = (mhdr :: a0 :: a1 :: a2 :: a3 :: fc :: c0 :: c1 :: (fo ++ [p])) ++ (frm ++ mic) := by simp [frameOf]
-  rw [hl, hsplit, List.take_left']
-  · simp [frameOf]
-  · rfl
-
-theorem withPayload_nil (b : Bytes) (v : Spec.DataView) (mhdr a0 a1 a2 a3 fc c0 c1 : UInt8) (fo body mic : Bytes) (ft : FType)
-    (hb : b = frameOf mhdr a0 a1 a2 a3 fc c0 c1 fo body mic) (hv : v = specViewOf ft a0 a1 a2 a3 fc c0 c1 fo body mic)
-    (hmic : mic.length = 4) (hbody : body.length ≤ 1) :
-    Spec.withPayload b v [] = b := by
-  subst hb hv
-  unfold Spec.withPayload
-  have hv : (specViewOf ft a0 a1 a2 a3 fc c0 c1 fo body mic).frm = [] := by
-    simp only [specViewOf]
-    match body, hbody with
-    | [], _ => rfl
-    | [_], _ => rfl
-  have hm : (specViewOf ft a0 a1 a2 a3 fc c0 c1 fo body mic).mic = mic := rfl
-  rw [hv, hm]
-  have hl : (frameOf mhdr a0 a1 a2 a3 fc c0 c1 fo body mic).length - 4 - ([] : Bytes).length
-      = (mhdr :: a0 :: a1 :: a2 :: a3 :: fc :: c0 :: c1 :: (fo ++ body)).length := by
-    simp [frameOf, hmic]; omega
-  have hsplit : frameOf mhdr a0 a1 a2 a3 fc c0 c1 fo body mic
-      = (mhdr :: a0 :: a1 :: a2 :: a3 :: fc :: c0 :: c1 :: (fo ++ body)) ++ mic := by simp [frameOf]
-  rw [hl, hsplit, List.take_left']
-  · simp
-  · rfl
 
 /-- **C02 (decryption).** For every byte string (up to 4064 bytes), optional keys and counter,
 `decrypt_in_place` does what the specification says: the same refusal with the buffer untouched, or
@@ -178,13 +128,6 @@ theorem decrypt_eq_spec (c : Cipher) (b : Bytes) (nwk app : Option Key) (N : UIn
           simp [layoutOf, cryptPayload_length]
         · rw [decode_pieces mhdr a0 a1 a2 a3 fc c0 c1 fo _ [m0, m1, m2, m3] ft hmaj hft hfo rfl]
           rfl
-
-theorem decrypt_untouched_or_ok (c : Cipher) (b : Bytes) (nwk app : Option Key) (N : UInt32) :
-    (decryptInPlace c b nwk app N).2 = b ∨ ∃ p, (decryptInPlace c b nwk app N).1 = .ok p := by
-  unfold decryptInPlace
-  simp only []
-  repeat' split
-  all_goals first | (left; rfl) | (right; exact ⟨_, rfl⟩)
 
 /-- a failing `decrypt_in_place` leaves the caller's buffer as it was (all lengths, no hypothesis) -/
 theorem decrypt_fail_untouched (c : Cipher) (b : Bytes) (nwk app : Option Key) (N : UInt32) (e : Err)
@@ -252,25 +195,6 @@ theorem full_fcnt_eq (N : UInt32) (wire : UInt16) :
     simp only [Spec.fullFcnt, UInt32.toNat_ofNat']
     omega
 
-theorem xor_xor (p K : Bytes) (h : p.length ≤ K.length) : Spec.xorBytes (Spec.xorBytes p K) K = p := by
-  induction p generalizing K with
-  | nil => rfl
-  | cons x xs ih =>
-    cases K with
-    | nil => simp at h
-    | cons k ks =>
-      simp only [Spec.xorBytes, List.zipWith_cons_cons] at ih ⊢
-      rw [ih ks (by simpa using h)]
-      congr 1
-      rw [UInt8.xor_assoc, UInt8.xor_self]; simp
-
-theorem crypt_involutive (c : Cipher) (k : Key) (dir : UInt8) (a f : UInt32) (p : Bytes) :
-    Spec.cryptPayload c k dir a f (Spec.cryptPayload c k dir a f p) = p := by
-  have hl := cryptPayload_length c k dir a f p
-  unfold Spec.cryptPayload at hl ⊢
-  rw [hl]
-  exact xor_xor p _ (by rw [keystream_length]; omega)
-
 /-- **C02 (involution).** Decrypting twice restores the ciphertext: if `decrypt_in_place` succeeds, a
 second `decrypt_in_place` (same keys, same counter) on the resulting buffer succeeds and gives back
 the received bytes. -/
@@ -305,6 +229,149 @@ theorem decrypt_involutive (c : Cipher) (b : Bytes) (nwk app : Option Key) (N : 
           (by rw [hl2]; exact hmax) hv2, hk]
         simp only [crypt_involutive]
         exact ⟨_, rfl⟩
+theorem view_of_layout (b : Bytes) (l : Layout) (h : Layout.validate b = .ok l) :
+    (DataPayload.view ⟨b, l⟩).map DataView.toSpec = Outcome.ofExcept (Spec.decodeData b) := by
+  have := parse_eq_spec b
+  simpa [dataViewOf, parseData, h, bind, pure] using this
+
+/-- the round trip at the level of the specification's description -/
+theorem roundtrip_desc (c : Cipher) (s : Spec.DataDesc) (nwk : Key) (app : Option Key) (encKey : Key)
+    (hfo : s.fopts.length ≤ 15) (hkey : Spec.payloadKey nwk app s = .ok encKey)
+    (hmax : ∀ port pld, s.body = some (port, pld) → pld.length ≤ 4064) :
+    let msg := Spec.dataMsg c encKey s
+    let frame := msg ++ Spec.dataMic c nwk (Spec.dirOf s.ftype) s.devAddr s.fcnt msg
+    ∃ p clear v, checkMicAndDecryptInPlace c frame nwk app s.fcnt = (.ok p, clear) ∧ p.bytes = clear
+      ∧ (p.view).map DataView.toSpec = .ok v ∧ v.toDesc s.fcnt v.frm = s.norm := by
+  intro msg frame
+  obtain ⟨a0, a1, a2, a3, ha⟩ := le_cons4 s.devAddr.toNat
+  obtain ⟨c0, c1, hc⟩ := le_cons2 (s.fcnt.toNat % 65536)
+  obtain ⟨hmaj, hft⟩ := mhdr_read s.ftype
+  obtain ⟨hf1, hf2, hf3, hf4, hf5⟩ := fctrl_read ⟨s.fopts.length, by omega⟩ s.ftype.isUplink s.adr s.adrAckReq s.ack s.fPending
+  obtain ⟨m0, m1, m2, m3, hmic⟩ := list4 (Spec.dataMic c nwk (Spec.dirOf s.ftype) s.devAddr s.fcnt msg) (mic_length ..)
+  have haddr : UInt32.ofNat (Spec.fromLe [a0, a1, a2, a3]) = s.devAddr := by
+    rw [← ha, fromLe_le]
+    apply UInt32.toNat_inj.mp
+    have := s.devAddr.toNat_lt
+    simp [UInt32.toNat_ofNat']
+  have hcnt : Spec.fullFcnt s.fcnt (UInt16.ofNat (Spec.fromLe [c0, c1])) = s.fcnt := by
+    apply (full_fcnt_eq s.fcnt _).2.1
+    rw [← hc, fromLe_le]
+    simp [UInt16.toNat_ofNat']
+  -- the frame in pieces
+  let body : Bytes := match s.body with
+    | none => []
+    | some (port, pld) => port :: Spec.cryptPayload c encKey (Spec.dirOf s.ftype) s.devAddr s.fcnt pld
+  have hframe : frame = frameOf (Spec.mhdrData s.ftype) a0 a1 a2 a3 (Spec.fctrl s) c0 c1 s.fopts body [m0, m1, m2, m3] := by
+    show msg ++ _ = _
+    rw [hmic]
+    simp only [msg, Spec.dataMsg, Spec.fhdr, ha, hc, frameOf, body]
+    cases s.body with
+    | none => simp
+    | some pp => obtain ⟨port, pld⟩ := pp; simp
+  have hfo' : s.fopts.length = (Spec.fctrl s).toNat % 16 := hf1.symm
+  have hval := layout_pieces (Spec.mhdrData s.ftype) a0 a1 a2 a3 (Spec.fctrl s) c0 c1 s.fopts body [m0, m1, m2, m3] s.ftype hmaj hft hfo' rfl
+  have hdec := decode_pieces (Spec.mhdrData s.ftype) a0 a1 a2 a3 (Spec.fctrl s) c0 c1 s.fopts body [m0, m1, m2, m3] s.ftype hmaj hft hfo' rfl
+  rw [hframe, checked_decrypt_eq_spec, hdec]
+  simp only []
+  -- authentic
+  have hauth : Spec.dataAuthentic c nwk s.fcnt (frameOf (Spec.mhdrData s.ftype) a0 a1 a2 a3 (Spec.fctrl s) c0 c1 s.fopts body [m0, m1, m2, m3])
+      (specViewOf s.ftype a0 a1 a2 a3 (Spec.fctrl s) c0 c1 s.fopts body [m0, m1, m2, m3]) = true := by
+    unfold Spec.dataAuthentic
+    rw [msgOf_pieces _ _ _ _ _ _ _ _ _ _ _ rfl]
+    simp only [specViewOf, haddr]
+    have hmsg : msg = Spec.mhdrData s.ftype :: a0 :: a1 :: a2 :: a3 :: Spec.fctrl s :: c0 :: c1 :: (s.fopts ++ body) := by
+      simp only [msg, Spec.dataMsg, Spec.fhdr, ha, hc, body]
+      cases s.body with
+      | none => simp
+      | some pp => obtain ⟨port, pld⟩ := pp; simp
+    rw [← hmsg, hmic]; simp
+  rw [hauth]
+  simp only [if_true]
+  cases hsb : s.body with
+  | none =>
+    have hbody : body = [] := by simp only [body, hsb]
+    rw [hbody] at hval hdec ⊢
+    refine ⟨_, _, specViewOf s.ftype a0 a1 a2 a3 (Spec.fctrl s) c0 c1 s.fopts [] [m0, m1, m2, m3], decrypt_pieces_empty c (some nwk) app s.fcnt _ s.ftype s.fopts [] hval (by simp), rfl, ?_, ?_⟩
+    · rw [view_of_layout _ _ hval, hdec]; rfl
+    · exact toDesc_norm s a0 a1 a2 a3 c0 c1 [] [m0, m1, m2, m3] hfo haddr (by rw [hsb]; rfl)
+  | some pp =>
+    obtain ⟨port, pld⟩ := pp
+    have hbody : body = port :: Spec.cryptPayload c encKey (Spec.dirOf s.ftype) s.devAddr s.fcnt pld := by simp only [body, hsb]
+    rw [hbody] at hval hdec ⊢
+    by_cases hpl : pld.length = 0
+    · have hpe : pld = [] := List.length_eq_zero_iff.mp hpl
+      subst hpe
+      have hce : Spec.cryptPayload c encKey (Spec.dirOf s.ftype) s.devAddr s.fcnt [] = [] := rfl
+      rw [hce] at hval hdec ⊢
+      refine ⟨_, _, specViewOf s.ftype a0 a1 a2 a3 (Spec.fctrl s) c0 c1 s.fopts [port] [m0, m1, m2, m3], decrypt_pieces_empty c (some nwk) app s.fcnt _ s.ftype s.fopts [port] hval (by simp), rfl, ?_, ?_⟩
+      · rw [view_of_layout _ _ hval, hdec]; rfl
+      · exact toDesc_norm s a0 a1 a2 a3 c0 c1 [port] [m0, m1, m2, m3] hfo haddr (by rw [hsb]; rfl)
+    · have hcl := cryptPayload_length c encKey (Spec.dirOf s.ftype) s.devAddr s.fcnt pld
+      have hd := decrypt_pieces c (some nwk) app s.fcnt (Spec.mhdrData s.ftype) a0 a1 a2 a3 (Spec.fctrl s) c0 c1 s.fopts port
+        (Spec.cryptPayload c encKey (Spec.dirOf s.ftype) s.devAddr s.fcnt pld) [m0, m1, m2, m3] s.ftype hft
+        (by rw [hcl]; omega) (by rw [hcl]; exact hmax port pld hsb) hval
+      -- the key the receiver selects is the key the sender used
+      have hk : (if port = 0 then some nwk else app) = some encKey := by
+        unfold Spec.payloadKey at hkey
+        rw [hsb] at hkey
+        simp only at hkey
+        by_cases hp0 : port = 0
+        · simp only [hp0, if_true] at hkey ⊢
+          split at hkey
+          · cases hkey
+          · cases hkey; rfl
+        · simp only [hp0, if_false] at hkey ⊢
+          cases app with
+          | none => cases hkey
+          | some k => cases hkey; rfl
+      rw [hk] at hd
+      simp only [haddr, hcnt, crypt_involutive] at hd
+      rw [hd]
+      have hval' := layout_pieces (Spec.mhdrData s.ftype) a0 a1 a2 a3 (Spec.fctrl s) c0 c1 s.fopts (port :: pld) [m0, m1, m2, m3] s.ftype hmaj hft hfo' rfl
+      have hdec' := decode_pieces (Spec.mhdrData s.ftype) a0 a1 a2 a3 (Spec.fctrl s) c0 c1 s.fopts (port :: pld) [m0, m1, m2, m3] s.ftype hmaj hft hfo' rfl
+      rw [layoutOf_congr s.ftype s.fopts (port :: pld) (port :: Spec.cryptPayload c encKey (Spec.dirOf s.ftype) s.devAddr s.fcnt pld)
+        (by simp [hcl])] at hval'
+      refine ⟨_, _, specViewOf s.ftype a0 a1 a2 a3 (Spec.fctrl s) c0 c1 s.fopts (port :: pld) [m0, m1, m2, m3], rfl, rfl, ?_, ?_⟩
+      · rw [view_of_layout _ _ hval', hdec']; rfl
+      · exact toDesc_norm s a0 a1 a2 a3 c0 c1 (port :: pld) [m0, m1, m2, m3] hfo haddr (by rw [hsb]; rfl)
+
+/-- **C02 (round trip).** Parsing any built frame returns the description it was built from: if
+`build_into` yields a frame, then `check_mic_and_decrypt_in_place` on that frame with the same keys
+and counter succeeds, and the accessors of the result denote the (normalised) description — all
+header fields, FOpts, port and the plaintext.  `norm` clears the flag that does not exist in the
+frame's direction (ADRACKReq on downlinks, FPending on uplinks), which the builder does not write. -/
+theorem parse_build (c : Cipher) (d : DataFrame) (buf : Bytes) (nwk : Key) (app : Option Key) (frame : Bytes)
+    (hmax : payloadLen d ≤ 4064) (hb : d.buildInto c buf nwk app = .ok frame) :
+    ∃ p clear v, checkMicAndDecryptInPlace c frame nwk app d.fcnt = (.ok p, clear) ∧ p.bytes = clear
+      ∧ (p.view).map DataView.toSpec = .ok v ∧ v.toDesc d.fcnt v.frm = d.toSpec.norm := by
+  rw [C01.build_data_eq_spec c d buf nwk app hmax] at hb
+  unfold Spec.encodeData at hb
+  by_cases h15 : d.toSpec.fopts.length > 15
+  · simp [h15, Outcome.ofExcept] at hb
+  · simp only [h15, if_false] at hb
+    cases hk : Spec.payloadKey nwk app d.toSpec with
+    | error e => rw [hk] at hb; simp [Outcome.ofExcept] at hb
+    | ok key =>
+      rw [hk] at hb
+      simp only at hb
+      split at hb
+      · simp [Outcome.ofExcept] at hb
+      · simp only [Outcome.ofExcept, Outcome.ok.injEq] at hb
+        have := roundtrip_desc c d.toSpec nwk app key (by omega) hk (by
+          intro port pld hbody
+          have : payloadLen d = pld.length := by
+            unfold payloadLen
+            unfold DataFrame.toSpec at hbody
+            simp only at hbody
+            cases hp : d.payload with
+            | none => rw [hp] at hbody; cases hbody
+            | data p nz bytes => rw [hp] at hbody; cases hbody; rfl
+            | macCommands cmds => rw [hp] at hbody; cases hbody; rfl
+          omega)
+        simp only at this
+        rw [hb] at this
+        exact this
+
 #print axioms parse_eq_spec
 #print axioms validate_mic_eq_spec
 #print axioms validate_mic_iff
@@ -313,5 +380,7 @@ theorem decrypt_involutive (c : Cipher) (b : Bytes) (nwk app : Option Key) (N : 
 #print axioms checked_decrypt_fail_untouched
 #print axioms decrypt_involutive
 #print axioms full_fcnt_eq
+#print axioms roundtrip_desc
+#print axioms parse_build
 
 end C02
